@@ -161,7 +161,7 @@ def plan(tier, seed):
         sh.append({"kind": "coldsched", "trials": trials[i : i + per], "tier": tier, "_name": f"coldsched-{i // per}"})
     for i in range(1 if tier == "quick" else 4):
         sh.append({"kind": "afterfail", "part": i, "tier": tier, "_name": f"afterfail-{i}"})
-    for i in range(2 if tier == "quick" else 24):
+    for i in range(2 if tier == "quick" else 16):
         sh.append({"kind": "twopoint", "part": i, "tier": tier, "_name": f"twopoint-{i}"})
     cf = coldfocus_trials(p, tier)
     per = 2 if tier == "quick" else 8
@@ -858,7 +858,7 @@ def run_twopoint(shard, mon, S, p):
     rng.shuffle(multi)
     sched = Scheduler(env.PKG, "line")
     sched.install()
-    budget = 2500 if shard["tier"] == "quick" else 120000
+    budget = 2500 if shard["tier"] == "quick" else 30000
     try:
         for name in multi:
             ids = [i for i in g[name] if p[i]["fn"] in ("from_bank_code", "candidates")]  # short calls: no thinning
